@@ -260,6 +260,8 @@ func (e *Engine) VerifyFunc(fn *ssa.Function, spec *FuncSpec, lockMode bool) (re
 				o := fx.addOblAt("post", name, r.guard, t, r.pos, fmt.Sprintf("postcondition at return %d", ri))
 				if o != nil {
 					res.NPost++
+					// later postconditions of the same return may use the earlier ones
+					fx.ctx.Assert(Imp(r.guard, t))
 				}
 			}
 			if !spec.Lemma {
